@@ -681,8 +681,9 @@ theorem private_census_is_crate_census (ds : DSetData) (g : Geom) (c : Ctx) (h :
 
 /-- **`private_orbifold_symbol_agrees`** (open item 2 of phase 1; proved under two decidable
     monitors): for every D-set of the domain, every admissible vector of positive curvature, if
-    C08's parity monitor holds for the emitted symbol (a weakly oriented symbol has an even
-    2 − χ − #boundaries) and a symbol that is not weakly oriented has at least one cross-cap (both concern only the handle / cross-cap bookkeeping of
+    `delaney2d::orbifold_symbol` is defined on the emitted symbol (its handle count 2 − χ − #boundaries
+    is not negative; C08's parity monitor is a theorem, `parityMonitor_holds`) and a symbol that is
+    not weakly oriented has at least one cross-cap (both concern only the handle / cross-cap bookkeeping of
     `delaney2d::orbifold_symbol`; the Spec evaluates them on every positive member of the box),
     then the generator's private `orbifold_symbol` returns `privString` — sorted cones, "*" iff a
     mirror exists, sorted corners, "x" iff not weakly oriented —, the C08 model of
@@ -698,17 +699,17 @@ theorem private_census_is_crate_census (ds : DSetData) (g : Geom) (c : Ctx) (h :
     equivalent to the sorted one. -/
 theorem private_orbifold_symbol_agrees (ds : DSetData) (g : Geom) (c : Ctx) (h : mkCtx ds g = .ok c)
     (hd : InDomain ds) (vs : List Nat) (ha : Adm c vs) (hpos : 0 < scaled c vs) (rep : D2.Rep)
-    (hmon : D2.parityMonitor ⟨emittedSym c vs, rep⟩ = true)
+    (hdef : ∃ o', D2.orbifoldSymbol ⟨emittedSym c vs, rep⟩ = .ok o')
     (hcap : ∀ o, D2.orbifoldSymbol ⟨emittedSym c vs, rep⟩ = .ok o → o.orientable = false → 1 ≤ o.count) :
     ∃ o, orbifoldSymbol c vs = .ok (privString c vs) ∧
       D2.orbifoldSymbol ⟨emittedSym c vs, rep⟩ = .ok o ∧
       (Tables.goodSphericalOrbifolds.contains (privString c vs) = true ↔
         SpecC07.onGoodList (D2.orbOf o) = true) ∧
       isGood c vs (scaled c vs) = .ok (SpecC07.onGoodList (D2.orbOf o)) :=
-  private_key_agrees h hd.valid hd.dim hd.far hd.connected hd.nonempty ha hpos rep hmon hcap
+  private_key_agrees h hd.valid hd.dim hd.far hd.connected hd.nonempty ha hpos rep hdef hcap
 
 example : ∃ c, mkCtx ex1 .all = .ok c ∧ Adm c [3, 3] ∧ 0 < scaled c [3, 3] ∧
-    D2.parityMonitor ⟨emittedSym c [3, 3], .partialSym⟩ = true := by
+    (D2.orbifoldSymbol ⟨emittedSym c [3, 3], .partialSym⟩).isOk = true := by
   refine ⟨_, rfl, ⟨by decide +kernel, by decide +kernel⟩, by decide +kernel, by decide +kernel⟩
 
 /-- the generated list, read in the generator's own format (`goodKeys`) and by
@@ -725,7 +726,7 @@ theorem good_list_two_readings :
 /-! ### open (not theorems): the statements, for the record -/
 
 /-- ◐ the two monitors of `private_orbifold_symbol_agrees` hold for every admissible vector of
-    positive curvature on every D-set of the domain: C08's parity monitor, and "not weakly oriented
+    positive curvature on every D-set of the domain: definedness of delaney2d's symbol, and "not weakly oriented
     ⇒ at least one cross-cap".  Both say that the handle / cross-cap count which
     `delaney2d::orbifold_symbol` derives from the Euler characteristic is the topological one
     (a closed orientable surface has even Euler characteristic; a non-orientable surface has a
@@ -734,7 +735,7 @@ theorem good_list_two_readings :
 def genus_monitors_statement : Prop :=
   ∀ (ds : DSetData) (g : Geom) (c : Ctx) (vs : List Nat) (rep : D2.Rep), InDomain ds →
     mkCtx ds g = .ok c → Adm c vs → 0 < scaled c vs →
-      D2.parityMonitor ⟨emittedSym c vs, rep⟩ = true ∧
+      (∃ o', D2.orbifoldSymbol ⟨emittedSym c vs, rep⟩ = .ok o') ∧
       ∀ o, D2.orbifoldSymbol ⟨emittedSym c vs, rep⟩ = .ok o → o.orientable = false → 1 ≤ o.count
 
 /-- ◐ the Spec's own curvature of the same assignment (orbits by naive closure) is the same number
